@@ -15,8 +15,15 @@ Definition quiet_instr (sub : str) (i : instr) : bool :=
   | _ => true
   end.
 
-Definition quiet (s : rstate) (c' : conn) (sub : str) : Prop :=
+Definition quiet0 (s : rstate) (c' : conn) (sub : str) : Prop :=
   Forall (fun i => quiet_instr sub i = true) (c_pc (r_cs s c')) /\ c_dead (r_cs s c') = false.
+
+(** ... and the session's context has not been cancelled *)
+Definition quiet (s : rstate) (c' : conn) (sub : str) : Prop :=
+  quiet0 s c' sub /\ ~ In c' (r_cancel s).
+
+Definition established0 (s : rstate) (c' : conn) (sub : str) (fs : list rfilter) : Prop :=
+  sub_of s c' sub = Some fs /\ quiet0 s c' sub.
 
 (** the subscription is registered and nothing pending will change it *)
 Definition established (s : rstate) (c' : conn) (sub : str) (fs : list rfilter) : Prop :=
@@ -55,8 +62,8 @@ Proof.
   - rewrite Nat.eqb_refl in He. discriminate.
 Qed.
 
-Lemma sub_of_mk b reg p cs x sub :
-  sub_of (mkR b reg p cs) x sub = match reg_get x reg with Some m => assoc sub m | None => None end.
+Lemma sub_of_mk b reg p k cs x sub :
+  sub_of (mkR b reg p k cs) x sub = match reg_get x reg with Some m => assoc sub m | None => None end.
 Proof. reflexivity. Qed.
 
 Lemma sub_of_with_cs s cs x sub : sub_of (with_cs s cs) x sub = sub_of s x sub.
@@ -81,10 +88,10 @@ Ltac own_or_other c x Hpc Hq :=
   [ rewrite upd_same; cbn; rewrite Hpc in Hq; inv_quiet_head Hq
   | rewrite upd_other by auto ].
 
-Lemma established_trans s l s' x sub fs :
-  established s x sub fs -> ends_sub x sub l = false -> trans s l s' -> established s' x sub fs.
+Lemma established0_trans s l s' x sub fs :
+  established0 s x sub fs -> ~ In x (r_cancel s) -> ends_sub x sub l = false -> trans s l s' -> established0 s' x sub fs.
 Proof.
-  intros [Hsub [Hq Hd]] He T. unfold established, quiet.
+  intros [Hsub [Hq Hd]] Hnc He T. unfold established0, quiet0.
   destruct (sub_of_reg_get _ _ _ _ Hsub) as [m0 [Hg0 Ha0]].
   inversion T; subst; cbn [r_cs r_reg with_cs].
   - (* op *)
@@ -163,6 +170,32 @@ Proof.
     destruct (Nat.eq_dec c x) as [->|N].
     + rewrite upd_same. cbn. split; assumption.
     + rewrite upd_other by auto. split; assumption.
+  - (* cancel *)
+    rewrite sub_of_mk. unfold sub_of in Hsub. split; [assumption | split; assumption].
+  - (* skip *)
+    rewrite sub_of_with_cs. split; [assumption|].
+    destruct (Nat.eq_dec c x) as [->|N]; [contradiction|]. rewrite upd_other by auto. split; assumption.
+  - (* defer *)
+    rewrite sub_of_mk. unfold sub_of in Hsub. split; [assumption|].
+    destruct (Nat.eq_dec c x) as [->|N]; [contradiction|]. rewrite upd_other by auto. split; assumption.
+Qed.
+
+(** the cancelled sessions: a session is added by its own disconnect label only *)
+Lemma cancel_trans s l s' x :
+  trans s l s' -> ~ In x (r_cancel s) -> l <> LOp x ODisc -> ~ In x (r_cancel s').
+Proof.
+  intros T Hn Hl. inversion T; subst; cbn [r_cancel with_cs start_visit]; try assumption.
+  - intros [->|H2]; [now apply Hl | contradiction].
+  - intro H2. apply remove_conn_In in H2 as [_ H2]. contradiction.
+Qed.
+
+Lemma established_trans s l s' x sub fs :
+  established s x sub fs -> ends_sub x sub l = false -> trans s l s' -> established s' x sub fs.
+Proof.
+  intros [Hsub [Hq Hnc]] He T.
+  destruct (established0_trans s l s' x sub fs (conj Hsub Hq) Hnc He T) as [Hsub' Hq'].
+  split; [assumption|]. split; [assumption|].
+  eapply cancel_trans; try eassumption. intros ->. cbn in He. now rewrite Nat.eqb_refl in He.
 Qed.
 
 (* ------------------------------------------------------------------ *)
@@ -195,6 +228,9 @@ Proof.
               (c_dead (r_cs s c)) (c_ops (r_cs s c)) (c_drops (r_cs s c))) x) as [[-> ->]|[_ ->]]; reflexivity.
   - destruct (upd_cases (r_cs s) c (mkC (c_pc (r_cs s c)) (c_q (r_cs s c)) None (c_out (r_cs s c) ++ [m]) (c_rd (r_cs s c)) (c_ctr (r_cs s c))
               (c_dead (r_cs s c)) (c_ops (r_cs s c)) (c_drops (r_cs s c))) x) as [[-> ->]|[_ ->]]; reflexivity.
+  - reflexivity.
+  - now rewrite upd_other.
+  - now rewrite upd_other.
 Qed.
 
 (* ------------------------------------------------------------------ *)
@@ -233,7 +269,7 @@ Qed.
 
 Lemma quiet_no_unsuball s x sub : quiet s x sub -> forall rest, c_pc (r_cs s x) <> IUnsubAll :: rest.
 Proof.
-  intros [Hq _] rest E. rewrite E in Hq. inversion Hq as [|? ? H1 _]; subst. discriminate.
+  intros [[Hq _] _] rest E. rewrite E in Hq. inversion Hq as [|? ? H1 _]; subst. discriminate.
 Qed.
 
 (* ------------------------------------------------------------------ *)
@@ -272,6 +308,7 @@ Proof.
         eapply reg_get_In; eassumption.
       * (* visit: the head is IPubBegin, impossible *)
         destruct H1 as [->|[-> _]]; cbn in Hl; apply Nat.eqb_eq in Hl; subst c; congruence.
+      * (* cancel *) left. cbn [r_cs]. eauto.
     + left. destruct (ctl_pc_ctr _ _ (trans_ctl_other _ _ _ p T Hl)) as [E1 E2]. rewrite E1, E2. eauto.
   - (* inside the outer loop, x not yet visited *)
     destruct (label_of_conn p l) eqn:Hl.
@@ -294,6 +331,7 @@ Proof.
               exists [IVisit e (p, n) c' (reorder ord match reg_get c' (r_reg s) with Some m => m | None => [] end)],
                      (remove_conn c' rem0), rest0.
               split; [reflexivity|]. split; [apply remove_conn_In; auto | right; eauto].
+        -- (* cancel *) right; left. cbn [r_cs]. exists [], rem0, rest0. auto.
       * inversion T; subst; cbn [label_of_conn] in Hl; try discriminate;
           try (apply Nat.eqb_eq in Hl; subst c); try congruence; try kill_reply.
         -- (* visit: head is IVisit, impossible *)
@@ -307,6 +345,7 @@ Proof.
            rewrite (pc_upd2 _ _ _ _ (send_if_match (r_buf s) e0 t sub0 fs0)) by (intro; apply ctl_send_if_match).
            rewrite upd_same. cbn. exists [IVisit e0 t c' todo], rem0, rest0. cbn. split; [reflexivity|]. split; [assumption|].
            right; eauto.
+        -- (* cancel *) right; left. cbn [r_cs]. exists [IVisit e2 t2 c2 todo2], rem0, rest0. split; [assumption|]. split; [assumption|]. right; eauto.
     + right; left. destruct (ctl_pc_ctr _ _ (trans_ctl_other _ _ _ p T Hl)) as [E1 E2]. rewrite E1. eauto 8.
   - (* inside the visit of x *)
     destruct (label_of_conn p l) eqn:Hl.
@@ -326,6 +365,7 @@ Proof.
         -- unfold progress; cbn [r_cs with_cs]. right; right; left.
            rewrite (pc_upd2 _ _ _ _ (send_if_match (r_buf s) e (p, n) sub0 fs0)) by (intro; apply ctl_send_if_match).
            rewrite upd_same. cbn. eauto.
+      * (* cancel *) right; right; left. cbn [r_cs]. eauto.
     + right; right; left. destruct (ctl_pc_ctr _ _ (trans_ctl_other _ _ _ p T Hl)) as [E1 E2]. rewrite E1. eauto.
   - right; right; right.
     eapply got_dchange; [apply dat_trans; eassumption | eapply quiet_no_unsuball; eassumption | assumption].
